@@ -36,7 +36,7 @@ _LD = None
 def _load():
     global _LD
     if _LD is None:
-        _LD = loader.load(['t2grids'])
+        _LD = loader.load(['t2grids', 't2data'])     # t2data: second entry point of rename_blocks
     return _LD
 
 
@@ -205,21 +205,41 @@ def task_reorder(sh, mode, profile=False):
     return tr
 
 
-def task_rename(sh, m_, fix=False, then_reorder=False, profile=False):
+def task_rename(sh, m_, fix=False, then_reorder=False, alpha='lower', via='t2grid', invert=False, profile=False):
+    """alpha 'alnumsp' (letters, digits, blank): names that fix_blockname rewrites ('ab1 5' means 'ab105');
+    then fix must be True, the map's precondition is stated on the fixed forms (as in C08) and the expected
+    name of a block is fixed(v) when its old name is fixed(k).
+    via 't2data': the same rename through t2data.rename_blocks (which fixes the map itself, optionally
+    after inverting it: with invert the map handed over is {v: k})."""
     ld = _load(); T = ld.t2grids
     from harness import C08
     failures, samples, distinct, perkey = [], [], set(), {}
     reached = [0]
+    fixpre = alpha != 'lower'
+    assert fix or not fixpre
+    opname = {'t2grid': 'rename_blocks', 't2data': 't2data.rename_blocks'}[via] + ('+reorder' if then_reorder else '')
 
     def h(c):
-        p = G.build(c, T, sh, alpha='lower', phys=True)
-        o = dict(m=m_, alpha='lower')
+        p = G.build(c, T, sh, alpha=alpha, phys=True)
+        o = dict(m=m_, alpha=alpha, fix_precondition=fixpre)
         keys, vals, bm = C08._rename_map(c, p, o, p.bnames)
+        if fixpre:      # what the documented fixing makes of the map (oracle side, no forking)
+            fkeys, fvals = [C08.fixed_form(k) for k in keys], [C08.fixed_form(v) for v in vals]
+        else:
+            fkeys, fvals = keys, vals
+        if invert:
+            bm = {}
+            for k, v in zip(keys, vals): bm[v] = k
         snap = G.snapshot(p.g)
         order_b, order_c = list(range(sh['nb'])), list(range(len(sh['cons'])))
         raised = None
         try:
-            p.g.rename_blocks(bm, fix_blocknames=fix)
+            if via == 't2data':
+                dat = ld.t2data.t2data()
+                dat.grid = p.g
+                dat.rename_blocks(bm, invert=invert, fix_blocknames=fix)
+            else:
+                p.g.rename_blocks(bm, fix_blocknames=fix)
             if then_reorder:
                 # composition: reorder the renamed grid (block list reversed, every connection listed reversed, under the NEW names)
                 order_b, order_c = order_b[::-1], order_c[::-1]
@@ -231,8 +251,8 @@ def task_rename(sh, m_, fix=False, then_reorder=False, profile=False):
         # expected name of each block: f(old name)
         exp = []
         for (b, name, vol, rock, ctr) in snap.blocks:
-            hit = [eqf(k, name) for k in keys]
-            parts = [z_or([z_not(hk), eqf(b.name, v)]) for hk, v in zip(hit, vals)]
+            hit = [eqf(k, name) for k in fkeys]
+            parts = [z_or([z_not(hk), eqf(b.name, v)]) for hk, v in zip(hit, fvals)]
             parts.append(z_or(hit + [eqf(b.name, name)]))
             exp.append(zb(z_and(parts)))
         checks = [('raised', 'the operation completes on an input that satisfies its precondition (%s)' % raised, raised is None),
@@ -246,12 +266,13 @@ def task_rename(sh, m_, fix=False, then_reorder=False, profile=False):
         def replay_of(m):
             return dict(op='rename_blocks', pre=G.concrete_pre(m, p),
                         args=dict(map=[[name_value(m, k), name_value(m, v)] for k, v in zip(keys, vals)], fix=fix,
-                                  then_reorder=then_reorder))
-        _finish_path(c, 'rename_blocks+reorder' if then_reorder else 'rename_blocks', sh, checks, failures, distinct, samples, replay_of, perkey)
+                                  then_reorder=then_reorder, via=via, invert=invert))
+        _finish_path(c, opname, sh, checks, failures, distinct, samples, replay_of, perkey,
+                     klass_default='names-to-fix' if fixpre else 'any')
         return 'ok'
 
     res = sym.explore(h, G.FastCtx(timeout_ms=30000), max_paths=6000, profile_repo=profile)
-    tr = report.summarize('rename%s/%s/m=%d' % ('+reorder' if then_reorder else '', G.shape_id(sh), m_), res, failures, samples,
+    tr = report.summarize('%s/%s/m=%d/%s%s' % (opname, G.shape_id(sh), m_, alpha, '/invert' if invert else ''), res, failures, samples,
                           extra=dict(distinct_obligations=len(distinct), reached=reached[0]))
     if not reached[0]: tr['error'] = 'vacuous: no path reached the obligations'
     return tr
